@@ -470,7 +470,7 @@ def run(tier="quick"):
     rep.not_decided = ["service order among simultaneously satisfied waiters (C06)"]
     for m in models:
         rep.configs.append(m.config)
-        rules(rep, m)
+        common.run_rules(rep, m, rules)
     if tier == "thorough":
         compiler_witness(rep, models[0])
     return rep.finish()
